@@ -206,14 +206,15 @@ Proof.
 Qed.
 
 Lemma print_dirs_ok G L l :
-  Forall (fun d => rt_ok ps G L (view d)) l -> keeps (good [] G L) (print_dirs cf w l) anyQ.
+  Forall (fun d => rt_ok ps G L (view d)) l -> forall v, keeps (good [] G L) (print_dirs cf w l v) anyQ.
 Proof.
-  induction 1 as [|d r Hd Hr IH]; cbn [print_dirs]; [apply keeps_ret_any|].
+  induction 1 as [|d r Hd Hr IH]; intros v; cbn [print_dirs]; [apply keeps_ret_any|].
   destruct d; try apply keeps_fail.
   destruct (lookup_directive name) as [[arglens ?]|]; [|apply keeps_fail].
   destruct (negb (check_num_args arglens (length args))); [apply keeps_fail|].
   cbn [view] in Hd. apply rt_ok_kids in Hd; [|reflexivity|discriminate]. apply Forall_map_view in Hd.
-  kb vs; [apply eval_list_ok; exact Hd|]. kb rest; [exact IH|]. apply keeps_ret_any.
+  kb vs; [apply eval_list_ok; exact Hd|]. kb s; [apply keeps_lift|]. kb ws; [apply keeps_lift|].
+  kb rest; [apply IH|]. apply keeps_ret_any.
 Qed.
 
 Lemma if_conds_ok G L cs :
@@ -415,7 +416,7 @@ Proof.
     to_any. kids H. inversion H as [|? ? Harg Hdirs]; subst. apply Forall_map_view in Hdirs.
     kb v; [apply w_any; exact Harg|].
     assert (Hk : keeps (good [] G L)
-                   (ds <-- print_dirs cf w dirs ;;; s <-- lift (value_string v) ;;; st <-- get ;;;
+                   (ds <-- print_dirs cf w dirs v ;;; s <-- lift (value_string v) ;;; st <-- get ;;;
                     ws <-- lift (print_writes (mode st) ds s) ;;; _ <-- write_all ws ;;; ret VUndef) anyQ).
     { kb ds; [apply print_dirs_ok; exact Hdirs|]. kb s; [apply keeps_lift|]. kb st; [apply keeps_get|].
       kb ws; [apply keeps_lift|]. kb u; [apply keeps_write_all; apply good_closed | apply keeps_ret_any]. }
